@@ -21,12 +21,12 @@ SPEC = {
           bound="full domain (no loop)"),
         H("c31_pack_injective", functions=F_PACK, domain="every pair of (tag,id), id in [1, 2^63)",
           bound="full domain (no loop)"),
-        H("c31_reserved_ids", functions=F_NEW, domain="constants BUILT_IN, NONE, INITIAL, TAG, ID_MASK", bound="n/a"),
-        H("c31_new_sequential", functions=F_NEW, domain="every counter value 1..=u64::MAX, one call",
+        H("c31_reserved_ids", functions=F_NEW, domain="constants BUILT_IN, NONE, INITIAL, TAG, ID_MASK: reserved ids distinct, untagged, below INITIAL", bound="n/a"),
+        H("c31_new_sequential", functions=F_NEW, domain="every reachable counter value [3, 2^63+2^32] (wrapped ones included), one call: id not reserved, no tag bit",
           bound="unwind 3 (at most one reset + retry)"),
         H("c31_new_twice_distinct", functions=F_NEW, domain="every counter value in [3, 2^63-1), two calls",
           bound="unwind 3"),
-        H("c31_reset", functions=F_NEW, domain="every counter value, reset then one call", bound="no loop iteration beyond 1"),
+        H("c31_reset", functions=F_NEW, domain="every counter value, reset then two calls: distinct and not reserved", bound="unwind 3"),
         H("c31_twin_must_fail", functions=F_PACK, domain="vacuity twin", bound="-", expect="twin"),
     ],
     "pre": driver.c31_pre,
